@@ -28,9 +28,11 @@ name = os.path.basename(demo)[:-3]
 reg = [f for f in glob.glob(f"{D}/*.diff") if not f.endswith("patch.diff")]
 
 # where does the demonstration go?
-m = re.search(r"`(sim/[^`]*" + re.escape(name) + r"\.rs)`", readme)
-if m:
-    dest = m.group(1)
+m = re.search(r"[`\s](?:/tmp/wt-C\d+/)?(sim/\S*" + re.escape(name) + r"\.rs)", readme)
+if os.path.exists(f"{D}/placement.txt"):
+    dest = open(f"{D}/placement.txt").read().strip()
+elif m:
+    dest = m.group(1).rstrip("`")
 elif reg:
     dest = f"sim/elvis-core/src/protocols/tcp/tcb/{name}.rs"
 else:
